@@ -319,6 +319,10 @@ func realC17Load(raw json.RawMessage) any {
 			} else {
 				fns = append(fns, cli.WithEnvFile(filepath.Join(edir, o.V)))
 			}
+		case "profiles":
+			fns = append(fns, cli.WithProfiles(append([]string{}, o.L...)))
+		case "defprofiles":
+			fns = append(fns, cli.WithDefaultProfiles(append([]string(nil), o.L...)...))
 		case "loname": // a SetProjectName smuggled in through WithLoadOptions: withNamePrecedenceLoad runs after it
 			v, b := o.V, o.B
 			fns = append(fns, cli.WithLoadOptions(func(lo *loader.Options) { lo.SetProjectName(v, b) }))
@@ -420,5 +424,5 @@ func realC17Load(raw json.RawMessage) any {
 	if !ok {
 		return c17Bad("service s missing")
 	}
-	return map[string]any{"ok": map[string]any{"name": p.Name, "env": env, "probe": s.Labels["probe"]}}
+	return map[string]any{"ok": c17Observe(p, map[string]any{"name": p.Name, "env": env, "probe": s.Labels["probe"]})}
 }
